@@ -93,6 +93,48 @@ PROPS["C02"] = {
 }
 
 
+REAL_S = [
+    "keto REST routers (ReadRouter/WriteRouter/OPLSyntaxRouter: negroni chain, httprouter, handlers, herodot writer) driven through ServeHTTP; gRPC servers (real interceptor chain incl. panic recovery) over grpc/test/bufconn",
+    "keto internal/relationtuple (handlers, Mapper), internal/check, internal/expand, internal/persistence/sql (Persister, Traverser), popx transactions, sqlcon error mapping, ory pop fork, sqlx, database/sql, go-sqlite3 / SQLite",
+]
+STUB_S = [
+    "TCP, cmux, TLS, HTTP/2 framing of REST, graceful shutdown: not run (REST requests are http.Request values handed to the real handler chain)",
+    "PostgreSQL / MySQL / CockroachDB dialect paths: only the sqlite dialect is available offline",
+    "uuid.DefaultGenerator replaced by the seeded generator (shard_id order)",
+    "SQL driver wrapped by the L2 seam (statement log, fail-stop fault injection); faults are fail-stop, no torn pages / power loss",
+]
+
+PROPS["C04"] = {
+    "level": "exploration",
+    "budget_s": {"quick": 80, "thorough": 2700},
+    "modes": [{"name": "", "runs": {"quick": 2500, "thorough": 60000}, "chunk": 100},
+              {"name": "faults", "runs": {"quick": 1200, "thorough": 30000}, "chunk": 100}],
+    "rule": ("one run = one tape-generated history of 4-30 (quick) / 4-60 (thorough) API operations (REST create/patch/delete-by-query/list, gRPC transact/delete-by-query/list; all 2^4 query shapes; "
+             "valid and invalid arguments: unknown namespaces, empty strings, missing subject, duplicates within a request, names reused as object and subject) against the real routers and gRPC servers; "
+             "after EVERY op the response is checked against the multiset model R2, then a full listing and two tape-chosen query shapes are compared as multisets of exact strings, and a check and an expand are compared with R1/R4 on the model state. "
+             "mode 'faults' additionally fails one SQL statement inside a third of the ops (io/busy/badconn/full/ctx, fail-stop): the op may fail, then the model does not move; it may never succeed with another effect. "
+             "non-trivial = history applied >=3 writes; distinct = hash of the whole history with responses."),
+    "probes": ["writes_applied", "invalid_ops", "probe_multi_page_list", "probe_check_allowed"],
+    "real": REAL_S, "stub": STUB_S,
+    "fault_kinds": {"io": "statement returns an I/O error", "busy": "'database is locked' (pop retries)", "badconn": "driver.ErrBadConn (database/sql retries outside a tx)", "full": "SQLITE_FULL", "ctx": "context.Canceled"},
+    "assumptions": ["ops run to completion one at a time (conformance loop, not a concurrency test)", "model R2 (sim/sys.go) is the specification of the multiset store"],
+}
+
+
+PROPS["C17"] = {
+    "level": "exploration",
+    "budget_s": {"quick": 60, "thorough": 1800},
+    "modes": [{"name": "", "runs": {"quick": 2500, "thorough": 60000}, "chunk": 100}],
+    "rule": ("one run = a stored state built by 0-12 tape-generated writes, then 5-25 read/syntax requests over all 15 read entry points (REST GET/POST check with and without status mirroring, gRPC check, REST and gRPC batch check, expand, list, namespaces, OPL syntax check), "
+             "valid and malformed, with names the server has never seen, unknown namespaces, odd max-depth values and bad page tokens. After EACH request: the SQL-seam statement log of the request contains no INSERT/UPDATE/DELETE/REPLACE/DDL, "
+             "and a dump of keto_relation_tuples and keto_uuid_mappings through a separate unwrapped sqlite connection is identical to before. non-trivial = the protected state has rows; distinct = hash of (initial dump, request/response history)."),
+    "probes": ["reads_ok", "reads_rejected", "probe_reads_hit_database"] + ["req_" + k for k in ["check-get", "check-get-openapi", "check-post", "check-post-openapi", "check-grpc", "batch-rest", "batch-grpc", "expand-rest", "expand-grpc", "list-rest", "list-grpc", "namespaces-rest", "namespaces-grpc", "syntax-rest", "syntax-grpc"]],
+    "real": REAL_S, "stub": STUB_S,
+    "fault_kinds": {},
+    "assumptions": ["the statement classifier at the SQL seam recognises write statements by their leading keyword"],
+}
+
+
 def evidence(prop, spec, tier, seed, records, deaths, unfinished, planned, wall_s, sim_wall_s, build_s, nworkers, n_new, known_hits):
     runs = 0
     execs = 0
